@@ -167,6 +167,14 @@ PROPS["C13"]["parts"].append(dict(name="flaky13", domain="store", domain_module=
 # C03's "replay … use the bundled stores … no such use deadlocks": publishes from inside replays over the three real stores
 PROPS["C03"]["parts"].append(dict(name="pubstore03", domain="store", domain_module="store", gen=store.gen_pub, n_quick=40, n_thorough=800, chunk=16))
 
+# C03's "handlers, filters and hooks may call back into the same bus without deadlocking": the sequential machine with many
+# Sequential handlers (also synchronous ones that publish to other handlers), re-entrant registry calls, shared option values
+PROPS["C03"]["parts"].append(dict(name="bus03", domain="bus", domain_module="bus", gen=bus.make_gen("C03"), n_quick=200, n_thorough=6000, chunk=128))
+
+# C04 on the sequential machine as well: once handlers with filters, dead contexts (cancelled and deadline-expired), the
+# OpenTelemetry adapter as Observability, chained once handlers, option values shared between subscriptions
+PROPS["C04"]["parts"].append(dict(name="bus04", domain="bus", domain_module="bus", gen=bus.make_gen("C04"), n_quick=200, n_thorough=6000, chunk=128))
+
 # C07's "every event is still delivered to it exactly once": the sequential machine with mostly Sequential handlers,
 # panicking bodies included (a Sequential handler that panics must give its mutex back)
 PROPS["C07"]["parts"].append(dict(name="bus07", domain="bus", domain_module="bus", gen=bus.make_gen("C07"), n_quick=200, n_thorough=6000, chunk=128))
